@@ -250,16 +250,20 @@ def datedWindowRisk (s : DateSpec) (so : DateOffset) (e : DateSpec) (eo : DateOf
 def exprWindowRisk (e : Expr) : Bool :=
   e.any (fun r => r.day.monthday.any (fun m => match m with | .date s so e eo => datedWindowRisk s so e eo | _ => false))
 
-/-- Open known finding (class `dated-shift-over-a-year`): a dated range one of whose bounds is moved by
-more than a year (`Jan 01 +400 days-Jan 10 +770 days`, `2020 Jan 1 -100000000 days-Feb 1`).  The code
-pairs the bounds on a fixed window of years around the evaluated day (y-2..y+2 for `filter`, y-2..y+10
-for the hint, y0-1..y0+2 for a yearless end after a start with a year), which such shifts leave: the
-filter disagrees with the documented semantics on some days and with its own hint (so the iterator
-disagrees with `state`).  Hint soundness and the refinement are PROVED for total shifts up to a year
-(OH/Props/C02B.lean `exprHintSafe`, OH/Props/C01.lean `exprDatedPlain`) and refuted beyond
-(`layerB_unscoped_fails`).  The class is decided on the rule alone. -/
+/-- Open known finding (class `dated-offset-beyond-calendar`): a dated range one of whose day offsets is beyond
+±92 000 000 days (about 252 000 years; `2020 Jan 1 -100000000 days-Feb 1`, `Jan 01 -95700000 days-Jan 10`): for
+some day of 1900–9999 the day `d - offset`, or a year of the search window around it, is not one chrono can
+represent.  The code's shifts saturate at `NaiveDate::MIN`/`MAX`, `valid_ymd_before/after` answer `DATE_END` for a
+year that cannot be built, and the `(DATE_START, end)` intervals that `intervals_from_bounds` makes of leftover ends
+are reached: the filter then disagrees with this (saturating) specification on some shapes.  Nothing panics and the
+hint stays consistent with the filter (brute force on the model).
+FORMER class `dated-shift-over-a-year` (a bound moved by more than a year left the fixed search windows around the
+evaluated day's year: `Jan 01 +400 days-Jan 10 +770 days`): closed by centring the windows on the year of
+`d - day offset` (`OH.Model.yearBeforeOffset`); refinement and hint soundness are PROVED for every offset within
+±100 000 days (OH/Props/C01.lean `exprDatedPlain`, OH/Props/C02B.lean `exprHintSafe`); between ±100 000 and
+±92 000 000 days nothing is proved and nothing is known to fail.  The class is decided on the rule alone. -/
 def datedBigShift (_s : DateSpec) (so : DateOffset) (_e : DateSpec) (eo : DateOffset) : Bool :=
-  so.days.natAbs + 6 > 365 || eo.days.natAbs + 6 > 365
+  so.days.natAbs > 92000000 || eo.days.natAbs > 92000000
 
 def exprBigShift (e : Expr) : Bool :=
   e.any (fun r => r.day.monthday.any (fun m => match m with | .date s so e eo => datedBigShift s so e eo | _ => false))
